@@ -33,7 +33,7 @@ Definition the_integ (c : s_case) : @integ NumF :=
   | _, _ => @LF NumF
   end.
 
-Definition enc_call (c : @call NumF) : nat * list float * list float :=
+Definition enc_call (c : @call NumF (ListVec NumF)) : nat * list float * list float :=
   match c with
   | CMisfit q => (0%nat, q, [])
   | CGrad q => (1%nat, q, [])
